@@ -23,34 +23,31 @@ Lemma rbind_pres {A B T} (pi : world -> T) (r : res A) (f : A -> world -> res B)
   pi (res_world (rbind r f)) = pi w0.
 Proof. intros H1 H2. destruct r as [a w|e w]; cbn [rbind res_world] in *; auto. Qed.
 
-Section Resets.
-Notation pi := w_resets.
-
-
-Lemma r_set_ents w x : pi (set_ents w x) = pi w. Proof. reflexivity. Qed.
-Lemma r_set_res w a b : pi (set_res w a b) = pi w. Proof. reflexivity. Qed.
-Lemma r_set_comps w a b : pi (set_comps w a b) = pi w. Proof. reflexivity. Qed.
-Lemma r_set_gev w a b : pi (set_gev w a b) = pi w. Proof. reflexivity. Qed.
-Lemma r_set_tev w a b : pi (set_tev w a b) = pi w. Proof. reflexivity. Qed.
-Lemma r_set_hs w x : pi (set_hs w x) = pi w. Proof. reflexivity. Qed.
-Lemma r_set_hreg w a b c d e : pi (set_hreg w a b c d e) = pi w. Proof. reflexivity. Qed.
-Lemma r_set_glists w x : pi (set_glists w x) = pi w. Proof. reflexivity. Qed.
-Lemma r_set_archs w x : pi (set_archs w x) = pi w. Proof. reflexivity. Qed.
-Lemma r_set_aidx w a b : pi (set_aidx w a b) = pi w. Proof. reflexivity. Qed.
-Lemma r_set_drops w x : pi (set_drops w x) = pi w. Proof. reflexivity. Qed.
-Lemma r_set_notes w x : pi (set_notes w x) = pi w. Proof. reflexivity. Qed.
-Lemma r_set_h w x : pi (set_h w x) = pi w. Proof. reflexivity. Qed.
-Hint Rewrite r_set_ents r_set_res r_set_comps r_set_gev r_set_tev r_set_hs r_set_hreg r_set_glists r_set_archs
+(* Generic in the observation [pi]: anything that the record updates used during event delivery
+   leave alone is left alone by a whole flush. *)
+Section Frame.
+Context {T : Type} (pi : world -> T).
+Hypothesis r_set_ents : forall w x, pi (set_ents w x) = pi w.
+Hypothesis r_set_res : forall w a b, pi (set_res w a b) = pi w.
+Hypothesis r_set_comps : forall w a b, pi (set_comps w a b) = pi w.
+Hypothesis r_set_hs : forall w x, pi (set_hs w x) = pi w.
+Hypothesis r_set_archs : forall w x, pi (set_archs w x) = pi w.
+Hypothesis r_set_aidx : forall w a b, pi (set_aidx w a b) = pi w.
+Hypothesis r_set_drops : forall w x, pi (set_drops w x) = pi w.
+Hypothesis r_set_notes : forall w x, pi (set_notes w x) = pi w.
+Hypothesis r_set_h : forall w x, pi (set_h w x) = pi w.
+Hint Rewrite r_set_ents r_set_res r_set_comps r_set_hs r_set_archs
   r_set_aidx r_set_drops r_set_notes r_set_h : frame.
+Ltac rs := autorewrite with frame; try reflexivity.
 
-Lemma r_log_drop w c s : pi (log_drop w c s) = pi w. Proof. reflexivity. Qed.
-Lemma r_drop_cval w t v : pi (drop_cval w t v) = pi w. Proof. unfold drop_cval. break_match; reflexivity. Qed.
-Lemma r_notify_refresh w ai : pi (notify_refresh w ai) = pi w. Proof. unfold notify_refresh. break_match; reflexivity. Qed.
-Lemma r_notify_remove_with w ai a : pi (notify_remove_with w ai a) = pi w. Proof. reflexivity. Qed.
-Lemma r_notify_remove w ai : pi (notify_remove w ai) = pi w. Proof. unfold notify_remove. break_match; reflexivity. Qed.
-Lemma r_upd_arch w ai f : pi (upd_arch w ai f) = pi w. Proof. unfold upd_arch. break_match; reflexivity. Qed.
+Lemma r_log_drop w c s : pi (log_drop w c s) = pi w. Proof. apply r_set_drops. Qed.
+Lemma r_drop_cval w t v : pi (drop_cval w t v) = pi w. Proof. unfold drop_cval. break_match; [apply r_log_drop|reflexivity]. Qed.
+Lemma r_notify_refresh w ai : pi (notify_refresh w ai) = pi w. Proof. unfold notify_refresh. break_match; rs. Qed.
+Lemma r_notify_remove_with w ai a : pi (notify_remove_with w ai a) = pi w. Proof. apply r_set_hs. Qed.
+Lemma r_notify_remove w ai : pi (notify_remove w ai) = pi w. Proof. unfold notify_remove. break_match; [apply r_notify_remove_with|reflexivity]. Qed.
+Lemma r_upd_arch w ai f : pi (upd_arch w ai f) = pi w. Proof. unfold upd_arch. break_match; rs. Qed.
 Lemma r_create_arch w cs i r : pi (snd (create_arch w cs i r)) = pi w.
-Proof. unfold create_arch. repeat break_match. reflexivity. Qed.
+Proof. unfold create_arch. repeat break_match. cbn [snd]. rs. Qed.
 Lemma r_traverse_insert w s c : pi (res_world (traverse_insert w s c)) = pi w.
 Proof.
   unfold traverse_insert. repeat break_match; cbn [res_world]; rewrite ?r_upd_arch; try reflexivity.
@@ -61,9 +58,9 @@ Proof.
   unfold traverse_remove. repeat break_match; cbn [res_world]; rewrite ?r_upd_arch; try reflexivity.
   match goal with H : create_arch _ _ _ _ = (_, ?w1) |- _ => change w1 with (snd (n, w1)); rewrite <- H; apply r_create_arch end.
 Qed.
-Lemma r_set_loc w e l : pi (res_world (set_loc w e l)) = pi w. Proof. unfold set_loc. break_match; reflexivity. Qed.
+Lemma r_set_loc w e l : pi (res_world (set_loc w e l)) = pi w. Proof. unfold set_loc. break_match; cbn [res_world]; rs. Qed.
 Lemma r_arch_spawn w e : pi (snd (arch_spawn w e)) = pi w.
-Proof. unfold arch_spawn. repeat break_match; cbn [snd]; rewrite ?r_notify_refresh; reflexivity. Qed.
+Proof. unfold arch_spawn. repeat break_match; cbn [snd]; rewrite ?r_notify_refresh; rs. Qed.
 
 Lemma r_drop_fold l w : pi (fold_left (fun (w' : world) '(c, v) => drop_cval w' (comp_tag w' c) v) l w) = pi w.
 Proof. apply (fold_left_pres pi). intros ? [? ?]. apply r_drop_cval. Qed.
@@ -75,9 +72,9 @@ Ltac pres :=
   repeat first
   [ progress cbn [res_world fst snd]
   | progress autorewrite with frame
-  | match goal with H : w_resets ?w = w_resets _ |- context [w_resets ?w] => rewrite H end
+  | match goal with H : pi ?w = pi _ |- context [pi ?w] => rewrite H end
   | reflexivity | assumption
-  | match goal with |- w_resets (res_world (rbind _ _)) = _ => apply rbind_pres; [|intros ? ? ?] end
+  | match goal with |- pi (res_world (rbind _ _)) = _ => apply rbind_pres; [|intros ? ? ?] end
   | break_match ].
 
 Lemma r_move_entity w src dst nw : pi (res_world (move_entity w src dst nw)) = pi w.
@@ -92,18 +89,18 @@ Proof.
   repeat break_match; cbn [res_world]; try reflexivity;
     match goal with H : arch_spawn ?w0 ?k = (?e, ?w1) |- _ =>
       let E := fresh in pose proof (r_arch_spawn w0 k) as E; rewrite H in E; cbn [snd] in E end.
-  - rewrite IH. cbn. assumption.
+  - rewrite IH, r_set_ents. assumption.
   - assumption.
 Qed.
 Lemma r_spawn_all w : pi (res_world (spawn_all w)) = pi w.
-Proof. unfold spawn_all. apply rbind_pres; [apply r_spawn_all_n|intros ? ? H; cbn; exact H]. Qed.
-Lemma r_refresh_cursor w : pi (refresh_cursor w) = pi w. Proof. reflexivity. Qed.
+Proof. unfold spawn_all. apply rbind_pres; [apply r_spawn_all_n|intros ? ? H; cbn [res_world]; rewrite r_set_res; exact H]. Qed.
+Lemma r_refresh_cursor w : pi (refresh_cursor w) = pi w. Proof. apply r_set_res. Qed.
 Lemma r_ev_drop w t tag ev : pi (ev_drop w t tag ev) = pi w.
 Proof. unfold ev_drop. pres. Qed.
-Lemma r_fresh_serial w : pi (snd (fresh_serial w)) = pi w. Proof. reflexivity. Qed.
-Lemma r_new_cval w k : pi (snd (new_cval w k)) = pi w. Proof. unfold new_cval. break_match; reflexivity. Qed.
-Lemma r_use_fuel w : pi (snd (use_fuel w)) = pi w. Proof. unfold use_fuel. break_match; reflexivity. Qed.
-Lemma r_push_known w k : pi (push_known w k) = pi w. Proof. reflexivity. Qed.
+Lemma r_fresh_serial w : pi (snd (fresh_serial w)) = pi w. Proof. apply r_set_h. Qed.
+Lemma r_new_cval w k : pi (snd (new_cval w k)) = pi w. Proof. unfold new_cval. break_match; [reflexivity|]. unfold fresh_serial. cbn [snd]. rs. Qed.
+Lemma r_use_fuel w : pi (snd (use_fuel w)) = pi w. Proof. unfold use_fuel. break_match; cbn [snd]; rs. Qed.
+Lemma r_push_known w k : pi (push_known w k) = pi w. Proof. apply r_set_h. Qed.
 Hint Rewrite r_move_entity r_remove_entity r_reserve r_spawn_all r_refresh_cursor r_ev_drop r_push_known : frame.
 
 Lemma r_write_arch w q d ai r : pi (write_arch w q d ai r) = pi w.
@@ -138,7 +135,7 @@ Proof.
   unfold run_handler. destruct (param_views w (h_params h) loc) as [f|[ritems views]]; [reflexivity|].
   match goal with |- context [run_actions ?a ?b ?c ?d ?e ?x] =>
     pose proof (r_run_actions a b c d e x) as Hra; destruct (run_actions a b c d e x) as [[sent w3] fl] end.
-  cbn [fst snd] in Hra. rewrite r_apply_writes in Hra. cbn in Hra.
+  cbn [fst snd] in Hra. rewrite r_apply_writes, r_set_h in Hra.
   repeat break_match; cbn [snd]; exact Hra.
 Qed.
 
@@ -150,6 +147,10 @@ Proof.
   pose proof (r_run_handler w h it tag loc) as Hh. destruct (run_handler beh w h it tag loc) as [r w1]. cbn [snd] in Hh.
   repeat break_match; cbn [fst]; rewrite ?IH, ?r_ev_drop; exact Hh.
 Qed.
+
+Lemma r_builtin_effect k ev loc w : pi (res_world (builtin_effect k ev loc w)) = pi w.
+Proof. unfold builtin_effect. destruct k; pres. Qed.
+Hint Rewrite r_builtin_effect : frame.
 
 Lemma r_deliver_one it w : pi (snd (fst (deliver_one beh it w))) = pi w.
 Proof.
@@ -169,20 +170,31 @@ Qed.
 Lemma r_unwind_queue q : forall w, pi (unwind_queue q w) = pi w.
 Proof. intros w. unfold unwind_queue. apply (fold_left_pres pi). intros. apply r_ev_drop. Qed.
 
-(* C20 on the model: the only arena reset of a top-level send is the one after the queue has
-   been drained; no delivery, at any depth, and no unwinding performs one *)
-Theorem flush_never_resets n q w tr s' oc :
+(* no delivery, at any depth, and no unwinding changes the observation *)
+Theorem flush_frame n q w tr s' oc :
   Loop.flush wst qitem (run_w beh) unwind_w n q (w, None) [] = Some (tr, s', oc) ->
-  w_resets (fst s') = w_resets w.
+  pi (fst s') = pi w.
 Proof.
-  intros H. change (w_resets w) with ((fun s : wst => w_resets (fst s)) (w, None)).
-  eapply (flush_preserves wst qitem (run_w beh) unwind_w (fun s : wst => w_resets (fst s))); [| |exact H].
+  intros H. change (pi w) with ((fun s : wst => pi (fst s)) (w, None)).
+  eapply (flush_preserves wst qitem (run_w beh) unwind_w (fun s : wst => pi (fst s))); [| |exact H].
   - intros e st. unfold run_w. pose proof (r_deliver_one e (fst st)) as Hd.
     destruct (deliver_one beh e (fst st)) as [[sent w1] fl]. exact Hd.
   - intros q0 st. unfold unwind_w. destruct (snd st) as [[k|s]|]; try reflexivity. cbn [fst].
     pose proof (r_spawn_all (unwind_queue q0 (fst st))) as Hs.
     destruct (spawn_all (unwind_queue q0 (fst st))); cbn [res_world] in Hs; rewrite Hs; apply r_unwind_queue.
 Qed.
+End WithBeh.
+End Frame.
+
+Section Resets.
+Variable beh : hinfo -> logent -> N -> script.
+
+(* C20 on the model: the only arena reset of a top-level send is the one after the queue has
+   been drained; no delivery, at any depth, and no unwinding performs one *)
+Theorem flush_never_resets n q w tr s' oc :
+  Loop.flush wst qitem (run_w beh) unwind_w n q (w, None) [] = Some (tr, s', oc) ->
+  w_resets (fst s') = w_resets w.
+Proof. apply (flush_frame w_resets); reflexivity. Qed.
 
 Lemma aborted_has_failure n q s acc tr s' :
   Loop.flush wst qitem (run_w beh) unwind_w n q s acc = Some (tr, s', Aborted) -> snd s' <> None.
@@ -199,15 +211,28 @@ Proof.
   pose proof E as E2. apply flush_never_resets in E. cbn [fst] in E. destruct oc; intros H; inversion H; subst; cbn; [now rewrite E|].
   apply aborted_has_failure in E2. cbn in E2. congruence.
 Qed.
-End WithBeh.
+
+(* the event registries and the global listener lists are not touched by a flush either *)
+Definition registries (w : world) := (w_gev w, w_gby w, w_tev w, w_tby w, w_glists w).
+Theorem flush_keeps_registries n q w tr s' oc :
+  Loop.flush wst qitem (run_w beh) unwind_w n q (w, None) [] = Some (tr, s', oc) ->
+  registries (fst s') = registries w.
+Proof. apply (flush_frame registries); reflexivity. Qed.
+Lemma deliver_one_keeps_registries it w : registries (snd (fst (deliver_one beh it w))) = registries w.
+Proof. apply (r_deliver_one registries); reflexivity. Qed.
+Lemma spawn_all_keeps_registries w : registries (res_world (spawn_all w)) = registries w.
+Proof. apply (r_spawn_all registries); reflexivity. Qed.
+Lemma unwind_queue_keeps_registries q w : registries (unwind_queue q w) = registries w.
+Proof. apply (r_unwind_queue registries); reflexivity. Qed.
 End Resets.
 
 (* ------------------------------------------------------------------ *)
 (* Structure: which entities exist, where they are stored and with which components.
    Handler bodies can write component values and push events, nothing else (C09).        *)
 (* ------------------------------------------------------------------ *)
-Definition ashape (e : sentry) : option (list N * list key) :=
-  match e with SOcc a => Some (a_comps a, map fst (a_rows a)) | SVac _ => None end.
+Definition rshape (r : key * list cval) : key * nat := (fst r, length (snd r)).
+Definition ashape (e : sentry) : (list N * list (key * nat) * list (N * N) * list (N * N)) + N :=
+  match e with SOcc a => inl (a_comps a, map rshape (a_rows a), a_ins a, a_rem a) | SVac v => inr v end.
 Definition structure (w : world) :=
   (w_ents w, w_comps w, map ashape (sl_entries (w_archs w)), sl_next (w_archs w), w_aby w).
 
@@ -223,13 +248,18 @@ Lemma s_ev_drop w t tag ev : pi (ev_drop w t tag ev) = pi w.
 Proof. unfold ev_drop. repeat break_match; rewrite ?s_drop_cval; reflexivity. Qed.
 
 Lemma map_ashape_nset l : forall i a a',
-  nget l i = Some (SOcc a) -> a_comps a' = a_comps a -> map fst (a_rows a') = map fst (a_rows a) ->
+  nget l i = Some (SOcc a) -> ashape (SOcc a') = ashape (SOcc a) ->
   map ashape (nset l i (SOcc a')) = map ashape l.
 Proof.
-  induction l as [|h t IH]; intros i a a' Hg Hc Hr; cbn [nset map]; [reflexivity|].
+  induction l as [|h t IH]; intros i a a' Hg Hc; cbn [nset map]; [reflexivity|].
   cbn [nget] in Hg. destruct (i =? 0).
-  - inversion Hg; subst. cbn [map ashape]. now rewrite Hc, Hr.
+  - inversion Hg; subst. cbn [map]. now rewrite Hc.
   - cbn [map]. f_equal. eapply IH; eauto.
+Qed.
+
+Lemma bump_vals_length zst comps muts d vals : length (bump_vals zst comps muts d vals) = length vals.
+Proof.
+  unfold bump_vals. rewrite app_length, map_length, combine_length, skipn_length. lia.
 Qed.
 
 Lemma s_write_arch w q d ai r : pi (write_arch w q d ai r) = pi w.
@@ -238,12 +268,13 @@ Proof.
   destruct (arch_state (has_of a) q) as [st|]; [|reflexivity].
   unfold structure, slab_get in *. cbn. destruct (nget (sl_entries (w_archs w)) ai) as [[a0|]|] eqn:Hg; try discriminate.
   inversion Ha; subst a0. f_equal. f_equal. f_equal.
-  eapply map_ashape_nset; [exact Hg|reflexivity|].
-  cbn [a_rows set_rows]. destruct r as [r|].
+  eapply map_ashape_nset; [exact Hg|]. cbn [ashape a_comps a_ins a_rem a_rows set_rows]. f_equal. f_equal. f_equal. f_equal.
+  destruct r as [r|].
   - destruct (nget (a_rows a) r) as [[e vals]|] eqn:Hr; [|reflexivity].
-    clear -Hr. revert r Hr. induction (a_rows a) as [|x t IH]; intros r Hr; cbn in *; [discriminate|].
-    destruct (r =? 0); [inversion Hr; subst; reflexivity|]. cbn. f_equal. eapply IH; eauto.
-  - rewrite map_map. apply map_ext. intros [e vals]. reflexivity.
+    generalize (bump_vals (fun c => ctag_zst (comp_tag w c)) (a_comps a) (amuts st) d vals) (bump_vals_length (fun c => ctag_zst (comp_tag w c)) (a_comps a) (amuts st) d vals).
+    intros vals' Hlen. clear -Hr Hlen. revert r Hr. induction (a_rows a) as [|x t IH]; intros r Hr; cbn in *; [discriminate|].
+    destruct (r =? 0); [inversion Hr; subst; cbn; unfold rshape; cbn; now rewrite Hlen|]. cbn. f_equal. eapply IH; eauto.
+  - rewrite map_map. apply map_ext. intros [e vals]. unfold rshape. cbn [fst snd]. now rewrite bump_vals_length.
 Qed.
 
 Lemma s_reserve w : pi (res_world (reserve w)) = pi w.
